@@ -27,7 +27,8 @@ PARAMS = {"Scale": ["scale"], "Threshold": ["threshold"], "Delay": ["delay"], "I
 
 
 def leaf(rng, cls):
-    sh = [rng.randint(1, 4)]
+    r = rng.random()      # parameter rank 1 mostly; rank 0 (scalar parameters: the DEFINED empty shape) and rank 2 too
+    sh = [] if r < 0.15 else [rng.randint(1, 4), rng.randint(1, 3)] if r < 0.3 else [rng.randint(1, 4)]
     if cls in PARAMS:
         return {"k": cls, "args": {p: np.ones(sh, dtype="float32") for p in PARAMS[cls]}}
     if cls == "Affine":
@@ -45,9 +46,9 @@ def leaf(rng, cls):
     if cls == "Flatten":
         return {"k": cls, "args": {"input_type": rng.choice([None, {"input": np.array([2, 3, 4])}]), "start_dim": 0, "end_dim": -1}}
     if cls == "Input":
-        return {"k": cls, "args": {"input_type": np.array(sh)}}
+        return {"k": cls, "args": {"input_type": np.array(sh, dtype=np.int64)}}
     if cls == "Output":
-        return {"k": cls, "args": {"output_type": np.array(sh)}}
+        return {"k": cls, "args": {"output_type": np.array(sh, dtype=np.int64)}}
     raise ValueError(cls)
 
 
